@@ -1,5 +1,5 @@
 CFG = {
-    "modules": ["Parsley.Props.C10", "Parsley.Props.C10Rules"],
+    "modules": ["Parsley.Props.C10", "Parsley.Props.C10Full", "Parsley.Props.C10Rules"],
     "theorems": [
         # structural theorems over the REGENERATED shipped specification (decide +kernel)
         "Parsley.C10.shipped_catalog_keys", "Parsley.C10.shipped_root_keys",
@@ -26,10 +26,25 @@ CFG = {
         "Parsley.C10.reach", "Parsley.C10.L_drop", "Parsley.C10.L_add", "Parsley.C10.L_wrong", "Parsley.C10.L_parent",
         "Parsley.C10.L_kid", "Parsley.C10.frame", "Parsley.C10.mutated_rejected",
         "Parsley.C10.names_entry_by_reference_witness",
+        # C10b: the acceptance half with EVERY optional entry of the menu
+        "Parsley.C10.menu_closed", "Parsley.C10.S'_closed", "Parsley.C10.rendered_conforms",
     ],
     "partial": {
         "Parsley.C10.rendered_conforms_partial":
-            "PENDING-ACCEPT",
+            "SUPERSEDED by the full theorems of the C10b follow-up (kept as a lemma): `rendered_conforms` (Props/C10Full.lean) proves "
+            "conformance for EVERY well-formed document WITH arbitrary optional entries of the menu (rectangles, dates, page-mode/"
+            "layout/tab names, name and number trees of every shape, name dictionary, indirect dictionary/stream, strings, booleans, "
+            "numbers) on catalog, pages and templates; `mutated_rejected` (Props/C10Rules.lean) proves `not Conforms (mutate m d)` for "
+            "EVERY well-formed d and EVERY valid single-rule mutation m of all six classes at every position and depth (no spec-gap "
+            "class exists: the judge's `spec-gap-*` verdicts are provably unreachable for valid mutations); "
+            "`date_recogniser_eq_regex_shape` proves the rules' date recogniser = the model of DateStringPredicate for every byte "
+            "string. STILL NOT PROVED: acceptance by the MACHINE (Model/TypeCheck.lean) of rendered documents: C08's "
+            "machine_eq_conforms_partial covers leaf checks only, the catalog is a dictionary type with a recursive disjunction below "
+            "it, and the machine genuinely differs from the declarative reading on mutated documents (memo leak, "
+            "any-entry-skips-indirect: known findings with witnesses); machine acceptance/rejection is covered by the correspondence "
+            "run (model = real checker on every case) only. Boundary made explicit: `Mutation.valid` excludes name-dictionary entries "
+            "given BY REFERENCE (`refEntry`); `names_entry_by_reference_witness` shows the shipped specification accepts "
+            "/Names << /Dests 2 0 R >> with 2 0 R a page-tree node (the name-tree predicate is applied to the target).",
     },
     "gen": ["CatalogSpec"],
     "n": {"quick": 400, "thorough": 6000},
@@ -58,8 +73,9 @@ CFG = {
         "verif hooks C08-00 and C10-00 (Predicate::verif_name/verif_choices, TypeCheckContext::verif_entries)",
     ],
     "assumptions": [
-        "single-rule mutations insert DIRECT values (no references inside the replacement value except in tree nodes, where the "
-        "rules ask for references); giving the /Type of a kid the name of another kid type is a change of kind, not a violation",
+        "single-rule mutations insert DIRECT values (the replacement value is not a reference, and -- `refEntry` in Mutation.valid -- "
+        "a replacement name dictionary does not give /Dests or /EmbeddedFiles by reference; references inside tree nodes are what the "
+        "rules ask for); giving the /Type of a kid the name of another kid type is a change of kind, not a violation",
         "documents carry pairwise distinct object numbers (Doc.ok)"],
 }
 LEVEL = {
